@@ -258,8 +258,11 @@ def keyed_cases(draw, tier="quick"):
                            min_size=npts, max_size=npts))
     quotes = [[a, list(b)] for a, b in quotes]
     quotes[0][0] = True        # the series starts on the first grid point (an environment without events is not a use case)
+    via_backtest = draw(st.sampled_from([False, False, True]))
+    if via_backtest:
+        quotes[-1][0] = True       # at least one decision: backtest() steps once before looking at `done`
     return {"cls": cls, "start": [y, m], "month": month, "k": k, "back_h": back_h, "gaps_h": gaps_h,
-            "quotes": quotes, "reader": draw(st.booleans())}
+            "quotes": quotes, "reader": draw(st.booleans()), "via_backtest": via_backtest}
 
 
 def run_keyed(case):
@@ -315,8 +318,31 @@ def run_keyed(case):
     tr.add_events(events)
     kwargs = {"state": Reader()} if case.get("reader") else {}
     env = TradingEnv(action_space=BoxPortfolio([chain], low=-1.0, high=1.0), transmitter=tr, initial_cash=1000.0, **kwargs)
-    env.reset()
-    for _ in range(len(grid) - 1):
+    if case.get("via_backtest"):
+        # the library's own episode loop; afterwards the environment is still alive and the chain must resolve at its time
+        from tradingenv.policy import AbstractPolicy
+
+        class Flat(AbstractPolicy):
+            def act(self, state=None):
+                return np.array([0.0])
+
+        env.backtest(policy=Flat())
+        res.tag("episode-run-by-backtest")
+        now = to_dt(env.now())
+        want = model_lead(ltds, now, case["month"])
+        if want is not None and want < len(futs):
+            if chain.symbol != futs[want].symbol or chain.static_hashing().symbol != futs[want].symbol:
+                res.fail("after backtest() the environment stands at %s but the chain resolves to %s; the lead at that instant is %s" % (
+                    now, chain.symbol, futs[want].symbol))
+                return _fin_keyed(res, case, crossed)
+            mine = [p for (t, p) in model[futs[want].symbol] if t <= now]
+            got = env.exchange[chain].bid_price
+            if mine and got != mine[-1]:
+                res.fail("after backtest(), at %s, the chain key reads bid %r; the lead %s was last quoted %r" % (now, got, futs[want].symbol, mine[-1]))
+                return _fin_keyed(res, case, crossed)
+    else:
+        env.reset()
+    for _ in range(len(grid) - 1 if not case.get("via_backtest") else 0):
         try:
             obs, reward, done, info = env.step(np.array([0.0]))
         except Exception as exc:  # noqa
@@ -327,7 +353,7 @@ def run_keyed(case):
         want = model_lead(ltds, now, case["month"])
         delivered = [(t, p) for sym in model for (t, p) in model[sym] if t <= now]
         if want is not None and want < len(futs):
-            AbstractContract.now = now
+            # (the contracts clock is left as the step left it)
             mine = [p for (t, p) in model[futs[want].symbol] if t <= now]
             got = env.exchange[chain].bid_price
             if mine and got != mine[-1]:
